@@ -240,6 +240,12 @@ impl Simulation {
     /// Simulation time remains unchanged. The periodicity of the action, if
     /// any, is ignored.
     pub fn process(&mut self, action: Action) -> Result<(), ExecutionError> {
+        // A terminated simulation must not spawn anything: its executor may
+        // no longer be usable.
+        if self.is_terminated {
+            return Err(ExecutionError::Terminated);
+        }
+
         action.spawn_and_forget(&self.executor);
         self.run()
     }
@@ -258,6 +264,12 @@ impl Simulation {
         F: for<'a> InputFn<'a, M, T, S>,
         T: Send + Clone + 'static,
     {
+        // A terminated simulation must not spawn anything: its executor may
+        // no longer be usable.
+        if self.is_terminated {
+            return Err(ExecutionError::Terminated);
+        }
+
         let sender = address.into().0;
         let fut = async move {
             // Ignore send errors.
@@ -296,6 +308,12 @@ impl Simulation {
         T: Send + Clone + 'static,
         R: Send + 'static,
     {
+        // A terminated simulation must not spawn anything: its executor may
+        // no longer be usable.
+        if self.is_terminated {
+            return Err(ExecutionError::Terminated);
+        }
+
         let (reply_writer, mut reply_reader) = slot::slot();
         let sender = address.into().0;
 
